@@ -131,6 +131,59 @@ void h_md(void)
 	VERIF_CANARY();
 }
 
+/* ---------------------------------------------------------------- per-stripe book keeping region */
+static snapraid_info g_set_info;
+static unsigned g_set_calls;
+static block_off_t g_set_pos;
+static inline void info_set(tommy_arrayblkof *array, block_off_t pos, snapraid_info info)
+__CPROVER_ensures(g_set_info == info && g_set_pos == pos && g_set_calls == __CPROVER_old(g_set_calls) + 1)
+__CPROVER_assigns(g_set_info, g_set_pos, g_set_calls);
+
+#ifdef VERIF_MARK_REGION
+#include "region_scrub_mark.c"
+
+#define MARK_DISKS 2
+void h_mark(void)
+{
+	static struct snapraid_state st;
+	struct snapraid_rehash rh[MARK_DISKS];
+	static unsigned char blkmem[MARK_DISKS][sizeof(struct snapraid_block) + HASH_MAX];
+	unsigned char oldhash[MARK_DISKS][HASH_MAX];
+	unsigned j;
+	int k, silent = IN.e != 0, ioerr = IN.r != 0, generic = IN.j != 0, rehash = IN.plan != 0;
+	VERIF_INPUTS();
+	silent = IN.e != 0; ioerr = IN.r != 0; generic = IN.j != 0; rehash = IN.plan != 0;
+	BLOCK_HASH_SIZE = 16;
+	for (j = 0; j < MARK_DISKS; ++j) {
+		struct snapraid_block *b = (struct snapraid_block *)blkmem[j];
+		for (k = 0; k < HASH_MAX; ++k) {
+			oldhash[j][k] = b->hash[k] = (unsigned char)(IN.a >> (k & 7)) ^ (unsigned char)(j * 31 + k);
+			rh[j].hash[k] = (unsigned char)(IN.b >> (k & 7)) ^ (unsigned char)(j * 17 + k + 1);
+		}
+		rh[j].block = ((IN.c >> j) & 1) ? b : 0;
+	}
+	g_set_calls = 0;
+#ifdef VERIF_NATIVE
+	exit(77);
+#endif
+	region_scrub_mark(&st, silent, ioerr, generic, rehash, rh, MARK_DISKS, IN.i, IN.info, IN.t);
+	if (silent || ioerr) {
+		VERIF_ASSERT(g_set_calls == 1 && g_set_pos == IN.i && g_set_info == (IN.info | 1u), "scrub marks a stripe bad on a silent or I/O error, keeping its time and other marks");
+	} else if (generic) {
+		VERIF_ASSERT(g_set_calls == 0, "scrub leaves the books alone on a plain (unsynced-file) error");
+	} else {
+		VERIF_ASSERT(g_set_calls == 1 && g_set_pos == IN.i && g_set_info == info_make(IN.t, 0, 0, 0), "scrub refreshes the time and clears all marks only for a stripe verified correct");
+	}
+	for (j = 0; j < MARK_DISKS; ++j) {
+		struct snapraid_block *b = (struct snapraid_block *)blkmem[j];
+		int stored = !silent && !ioerr && !generic && rehash && rh[j].block != 0;
+		for (k = 0; k < HASH_MAX; ++k)
+			VERIF_ASSERT(b->hash[k] == (stored ? rh[j].hash[k] : oldhash[j][k]), "scrub stores migrated hashes only for a stripe verified correct");
+	}
+	VERIF_CANARY();
+}
+#endif
+
 /* ---------------------------------------------------------------- limits region */
 #include "region_scrub_limits.c"
 
